@@ -8,16 +8,18 @@ Granularity: one label per atomic action of the code —
 * `emitTry h m`  `sender.try_send(Some(m))` on handle `h` (the linearisation point of an emit)
 * `emitCount`    the `submitted.fetch_add` that follows a successful try_send (separate, so the
                  window in which `drained` has overtaken `submitted` is in the model)
-* `clone h` / `drop h`   handle management; dropping the *last* handle requests the stop: the stop
-                 flag is set and `try_send(None)` is attempted, its result ignored
+* `clone h` / `drop h`   handle management; dropping the *last* handle starts `WorkerStopper::drop`,
+                 which runs `Worker::stop()` in two separately scheduled steps:
+* `stopFlag`     `stop_requested.store(true)`
+* `stopPill`     `sender.try_send(None)`, its result ignored (a full bounded queue refuses the pill)
 * `wCheck`       the worker's loop head: stop requested and queue empty → leave the loop
 * `wRecv`        `receiver.recv()`: blocks (label disabled) on an empty queue
 * `wCount`       `drained.fetch_add`, then the call into the wrapped sink begins
 * `wFinish o`    the wrapped sink returns Ok / Err(tok) / panics; an error goes to the handler if one
                  is configured; a panic unwinds the thread, `Sentinel::drop` counts it and spawns a
                  new thread that re-enters the loop head
-* `release`      the exited worker thread lets go of the wrapped sink (its `Drop` runs) once no
-                 handle is left
+* `release`      the wrapped sink's `Drop` runs: the worker thread has exited, no handle is left and
+                 the stopper has finished `stop()` (it holds an `Arc<Worker>` until then)
 
 crossbeam's channel is a linearizable FIFO with atomic try_send / recv (trusted).  A zero-capacity
 (rendezvous) channel has different try_send semantics and is outside the model: liveness theorems
@@ -31,6 +33,10 @@ inductive Outcome | ok | err (tok : Nat) | panic
 inductive Phase (μ : Type) | check | recving | got (m : μ) | running (m : μ) | exited
   deriving DecidableEq, Repr
 
+/-- progress of `WorkerStopper::drop` (runs once, when the last handle goes) -/
+inductive StopStage | idle | flag | pill | done
+  deriving DecidableEq, Repr
+
 /-- what the wrapped sink, the handler and the wrapped sink's `Drop` see, in real-time order -/
 inductive Ev (μ : Type) | enter (m : μ) | handled (tok : Nat) | released
   deriving DecidableEq, Repr
@@ -42,6 +48,7 @@ structure St (μ : Type) where
   handles : List Nat
   nextHandle : Nat
   stopReq : Bool
+  stopStage : StopStage
   phase : Phase μ
   submitted : Nat
   drained : Nat
@@ -60,6 +67,7 @@ inductive Label (μ : Type)
   | emitCount
   | clone (h : Nat)
   | drop (h : Nat)
+  | stopFlag | stopPill
   | wCheck | wRecv | wCount
   | wFinish (o : Outcome)
   | release
@@ -74,7 +82,7 @@ def room {μ} (s : St μ) : Bool :=
   | .some c => s.chan.length < c
 
 def init {μ} (cap : Option Nat) (hasHandler : Bool) : St μ :=
-  { cap, hasHandler, chan := [], handles := [0], nextHandle := 1, stopReq := false, phase := .check,
+  { cap, hasHandler, chan := [], handles := [0], nextHandle := 1, stopReq := false, stopStage := .idle, phase := .check,
     submitted := 0, drained := 0, panics := 0, pendingIncr := 0, accepted := [], wrappedLog := [],
     handlerLog := [], finished := [], trace := [], released := false }
 
@@ -96,11 +104,17 @@ def step {μ} (s : St μ) : Label μ → Option (St μ × Obs)
   | .drop h =>
     if h ∈ s.handles then
       let hs := s.handles.erase h
-      if hs = [] then
-        some ({ s with handles := hs, stopReq := true,
-                        chan := if room s then s.chan ++ [none] else s.chan }, .none)
+      if hs = [] then some ({ s with handles := hs, stopStage := .flag }, .none)
       else some ({ s with handles := hs }, .none)
     else none
+  | .stopFlag =>
+    match s.stopStage with
+    | .flag => some ({ s with stopReq := true, stopStage := .pill }, .none)
+    | _ => none
+  | .stopPill =>
+    match s.stopStage with
+    | .pill => some ({ s with stopStage := .done, chan := if room s then s.chan ++ [none] else s.chan }, .none)
+    | _ => none
   | .wCheck =>
     match s.phase with
     | .check =>
@@ -132,7 +146,7 @@ def step {μ} (s : St μ) : Label μ → Option (St μ × Obs)
     | _ => none
   | .release =>
     match s.phase with
-    | .exited => if s.handles = [] && !s.released then
+    | .exited => if s.handles = [] && s.stopStage == .done && !s.released then
         some ({ s with released := true, trace := s.trace ++ [.released] }, .none) else none
     | _ => none
 
@@ -153,6 +167,12 @@ def isWorker {μ} : Label μ → Bool
   | .wCheck | .wRecv | .wCount | .wFinish _ | .release => true
   | _ => false
 
+/-- steps that need no further call by any user of the sink: the worker's, and the two steps of the
+`stop()` already running inside the last handle's destructor -/
+def isSystem {μ} : Label μ → Bool
+  | .stopFlag | .stopPill => true
+  | l => isWorker l
+
 /-- run a sequence of labels; `none` if one of them is not enabled -/
 def runLabels {μ} (s : St μ) : List (Label μ) → Option (St μ)
   | [] => some s
@@ -165,17 +185,22 @@ def queuedOf (submitted drained : Nat) : Nat := if submitted > drained then subm
 
 /-! ### the deterministic quiescent schedule used by the correspondence
 
-After each harness operation the worker runs until it blocks: inside the (gated) wrapped sink,
-in `recv()` on an empty queue, or exited (and released).  `settle` is that schedule; it is one
-particular sequence of LTS labels (`settle_is_run`). -/
+After each harness operation the dropping thread finishes `stop()` (if it is inside one) and the
+worker runs until it blocks: inside the (gated) wrapped sink, in `recv()` on an empty queue, or
+exited (and released).  `settle` is that schedule; it is one particular sequence of LTS labels
+(`settle_reachable`). -/
 
 def workerStep {μ} (s : St μ) : Option (Label μ) :=
+  match s.stopStage with
+  | .flag => some .stopFlag
+  | .pill => some .stopPill
+  | _ =>
   match s.phase with
   | .check => some .wCheck
   | .recving => if s.chan.isEmpty then none else some .wRecv
   | .got _ => some .wCount
   | .running _ => none
-  | .exited => if s.handles.isEmpty && !s.released then some .release else none
+  | .exited => if s.handles.isEmpty && s.stopStage == .done && !s.released then some .release else none
 
 def settle {μ} : Nat → St μ → St μ
   | 0, s => s
